@@ -35,6 +35,7 @@ type txnCtx struct {
 	thread     int
 	abort      bool // the body will end in an error
 	ttlPending bool
+	aggGot     string                          // result of the aggregate call being judged (report text)
 	ttlAcc     interface{ Set(time.Duration) } // txn.TTL() accessor obtained at the start of the current row operation (C17)
 }
 
